@@ -208,6 +208,9 @@ func newIpfsAdder(ctx context.Context, dgs ClusterDAGService, params *api.AddPar
 	if !ok {
 		return nil, fmt.Errorf("unrecognized hash function: %s", params.HashFun)
 	}
+	if prefix.Version == 0 && hashFunCode != multihash.SHA2_256 {
+		return nil, errors.New("CIDv0 only supports the sha2-256 hash function")
+	}
 	prefix.MhType = hashFunCode
 	prefix.MhLength = -1
 	iadder.CidBuilder = &prefix
